@@ -133,6 +133,10 @@ abbrev bGet : Nat := 16         -- d.get(k) / d.get(k, default)
 abbrev bAnyInst : Nat := 17     -- any(isinstance(v, c) for c in classes)
 abbrev bAdd : Nat := 18         -- a + b (ints)
 abbrev bIsNumber : Nat := 19    -- class pattern `int() | float()`: numbers are `.int` (and `bool`, a subclass of `int`)
+abbrev bDelItem : Nat := 20     -- del d[k]            -> new dict   (KeyError unsupported: stuck)
+abbrev bMoveToEnd : Nat := 21   -- d.move_to_end(k)    -> new dict
+abbrev bPopFirst : Nat := 22    -- d.popitem(last=False) -> new dict (the popped pair is not used)
+abbrev bPair : Nat := 23        -- a two-field named tuple `T(a, b)`: `[a, b]`
 
 /-- interpreter state: locals, fields of `self`, the external world, the exception being handled (for bare `raise`),
 and a counter for fresh identities -/
@@ -167,6 +171,9 @@ def assocSet : List (Val × Val) → Val → Val → List (Val × Val)
   | [], x, v => [(x, v)]
   | (k, w) :: r, x, v => if k.same x then (k, v) :: r else (k, w) :: assocSet r x v
 
+/-- `del d[k]` (keys of a dict are unique: every pair with that key goes) -/
+def assocDel (kv : List (Val × Val)) (x : Val) : List (Val × Val) := kv.filter fun p => !p.1.same x
+
 def builtin {W : Type} (f : Nat) (args : List Val) (s : St W) : R W :=
   match f, args with
   | 0, [.list xs] => .ok (.int xs.length) s
@@ -193,6 +200,12 @@ def builtin {W : Type} (f : Nat) (args : List Val) (s : St W) : R W :=
   | 16, [.dict kv, k, d] => .ok ((assocGet kv k).getD d) s
   | 17, [.exc c _, .list cs] => .ok (.bool (cs.any fun | .cls d => isSub c d | _ => false)) s
   | 18, [.int a, .int b] => .ok (.int (a + b)) s
+  | 20, [.dict kv, k] => if (assocGet kv k).isSome then .ok (.dict (assocDel kv k)) s else .stuck
+  | 21, [.dict kv, k] => (match assocGet kv k with
+      | some v => .ok (.dict (assocDel kv k ++ [(k, v)])) s
+      | none => .stuck)
+  | 22, [.dict kv] => if kv.isEmpty then .stuck else .ok (.dict kv.tail) s
+  | 23, [a, b] => .ok (.list [a, b]) s
   | 19, [.int _] => .ok (.bool true) s
   | 19, [.bool _] => .ok (.bool true) s
   | 19, [_] => .ok (.bool false) s
